@@ -28,33 +28,43 @@ def stratDateChange (d : Nat) (sd : StratData α) : StratData α × Bool :=
                  lastNotl := sd.notl, lastFee := 0, now := some d }, true)
     else ({ sd with now := some d }, false)
 
+/-- value, notional, bid/offer-paid and their rows (l.733-741). -/
+def stratSetTotals (d : Nat) (sd : StratData α) (val notl bo : α) : StratData α :=
+  let sd1 : StratData α :=
+    { sd with value := val, rValue := sd.rValue.set d val, notl := notl, rNotl := sd.rNotl.set d notl }
+  if sd1.bidofferSet then { sd1 with bidofferPaid := bo, rBidofferPaid := sd1.rBidofferPaid.set d bo } else sd1
+
+/-- additive return of a fixed-income strategy (l.745-760), in index points. -/
+def fiReturn (cfg : Cfg α) (sd : StratData α) : Except Err α :=
+  let pnl := sd.value - (sd.lastValue + sd.netFlows)
+  if !(isZero cfg.tol sd.lastNotl) then pure (pnl / sd.lastNotl * cfg.par)
+  else if !(isZero cfg.tol sd.notl) then pure (pnl / sd.notl * cfg.par)
+  else if isZero cfg.tol pnl then pure 0
+  else throw Err.zeroBaseReturn
+
+/-- multiplicative return of a market-value strategy (l.766-786). -/
+def mvReturn (cfg : Cfg α) (sd : StratData α) : Except Err α :=
+  let bottom := sd.lastValue + sd.netFlows
+  if !(isZero cfg.tol bottom) then pure (sd.value / bottom - 1)
+  else if isZero cfg.tol sd.value then pure 0
+  else throw Err.zeroBaseReturn
+
+def stratSetPrice (d : Nat) (sd : StratData α) (p : α) : StratData α :=
+  { sd with price := p, rPrice := sd.rPrice.set d p }
+
+/-- the write guard of l.732 -/
+def stratChanged (cfg : Cfg α) (newpt : Bool) (sd : StratData α) (val notl : α) : Bool :=
+  newpt || !(isZero cfg.tol (sd.value - val)) || !(isZero cfg.tol (sd.notl - notl))
+
 /-- value / notional / index write (l.732-789). -/
 def stratWrite (cfg : Cfg α) (d : Nat) (newpt : Bool) (sd : StratData α) (val notl bo : α) :
     Except Err (StratData α) :=
-  if newpt || !(isZero cfg.tol (sd.value - val)) || !(isZero cfg.tol (sd.notl - notl)) then
-    let sd1 : StratData α :=
-      { sd with value := val, rValue := sd.rValue.set d val, notl := notl, rNotl := sd.rNotl.set d notl }
-    let sd2 : StratData α :=
-      if sd1.bidofferSet then { sd1 with bidofferPaid := bo, rBidofferPaid := sd1.rBidofferPaid.set d bo } else sd1
+  if stratChanged cfg newpt sd val notl then
+    let sd2 := stratSetTotals d sd val notl bo
     if sd2.fixedIncome then
-      let pnl := sd2.value - (sd2.lastValue + sd2.netFlows)
-      let retE : Except Err α :=
-        if !(isZero cfg.tol sd2.lastNotl) then pure (pnl / sd2.lastNotl * cfg.par)
-        else if !(isZero cfg.tol sd2.notl) then pure (pnl / sd2.notl * cfg.par)
-        else if isZero cfg.tol pnl then pure 0
-        else throw Err.zeroBaseReturn
-      retE.bind fun ret =>
-      let p := sd2.lastPrice + ret
-      pure { sd2 with price := p, rPrice := sd2.rPrice.set d p }
+      (fiReturn cfg sd2).map fun ret => stratSetPrice d sd2 (sd2.lastPrice + ret)
     else
-      let bottom := sd2.lastValue + sd2.netFlows
-      let retE : Except Err α :=
-        if !(isZero cfg.tol bottom) then pure (sd2.value / bottom - 1)
-        else if isZero cfg.tol sd2.value then pure 0
-        else throw Err.zeroBaseReturn
-      retE.bind fun ret =>
-      let p := sd2.lastPrice * (1 + ret)
-      pure { sd2 with price := p, rPrice := sd2.rPrice.set d p }
+      (mvReturn cfg sd2).map fun ret => stratSetPrice d sd2 (sd2.lastPrice * (1 + ret))
   else pure sd
 
 /-- the weight a child gets (l.798-807) -/
